@@ -54,6 +54,13 @@ CLAIMS = {
     'C11': dict(level='proof', technique=FRAME_TECH, note=FRAME_NOTE,
         text='PROVED for all inputs (frame contract): Merger.merge writes only below the output directory (plus the two load-time files of the model loaded from it): the input directories are only read. '
              'BOUNDED only: spike conservation, stable time order, per-probe id offsets, probe table, renumbered metadata, byte-identity of inputs, on 1-4 generated probe directories.'),
+    'C12': dict(level='proof',
+        text='PROVED for any number of probes, channel counts and channel maps: Merger.write_channel_data (loop invariant over the list of per-probe arrays) — the merged channel map consists of the probes\' maps '
+             'as contiguous blocks in input order, each shifted by ONE per-probe constant (registered in channel_offsets), and channel_probe labels block k with k; _concat = blocks in order. BOUNDED only: '
+             'positions (x translation), templates (block placement, fixed by a fix: commit), index tables, block-diagonal matrices, params, on 1-5 generated probes (several recorded findings).',
+        note='Assumed: np.load gives fresh arrays equal to the files (in-place += touches copies only), 1-D NumPy theory incl. in-place augmented assignment and concatenation of a list of arrays (rpsum with its defining recurrence and prefix determinacy), '
+             'every probe has at least one channel.',
+        assumptions=['A-LIB np.concatenate of a list of 1-D arrays', 'A-LIB np.load returns fresh arrays', 'A-NOOVF']),
     'C13': dict(level='proof', technique=FRAME_TECH, note=FRAME_NOTE,
         text='PROVED for all inputs (frame contract): EphysAlfCreator.convert refuses (IOError) before any effect when output and source directories resolve to the same path; otherwise it writes only below the output '
              'directory, adds only the three subset files to the source and deletes only the temporary whitened file. BOUNDED only: first dimensions of the exported tables, uuids, labels, reload equality, on generated dense datasets.'),
